@@ -37,7 +37,8 @@ Monotone == (Good /\ ~R.poldep /\ InputsMonotone => StrictlyIncreasing(R.z)) \/ 
 EdgeIsInputPlusDelay == (Good => \A t \in FiniteTimes(R.z) : \E i \in Ins : \E u \in FiniteTimes(R.win[i]) : \E d \in AllD(i) : t = u + d)
                         \/ Fail("C04", "EdgeIsInputPlusDelay")
 \* C04: rigid motion at the kernel: the same configuration with all input times shifted by R.sd (resp. all times and
-\* delays scaled by R.sf) was run through the real kernel as well (R.zs, R.zc; empty when not recorded)
+\* delays scaled by R.sf / R.sden, R.sden a power of two, the result reported in units of 1/R.sden) was run through the
+\* real kernel as well (R.zs, R.zc; empty when not recorded)
 ShiftEquivariant == (Good /\ Len(R.zs) > 0 => R.zs = Shift(R.z, R.sd)) \/ Fail("C04", "ShiftEquivariant")
 ScaleEquivariant == (Good /\ Len(R.zc) > 0 => R.zc = Scale(R.z, R.sf)) \/ Fail("C04", "ScaleEquivariant")
 \* C05: the 8-valued abstraction of the output is predicted by the 8-valued operator applied to the abstractions of the inputs
